@@ -807,13 +807,14 @@ Qed.
 
 (* next hands out a peer: it was NotContacted and no longer is; the query was not at capacity *)
 Lemma next_emit q now q' p : next q now = Some (q', SWaiting (Some p)) ->
-  prog q <> Finished /\ at_capacity q = false /\ cnt fNC (peers q') + 1 = cnt fNC (peers q) /\
+  prog q <> Finished /\ prog q' = prog q /\ at_capacity q = false /\ cnt fNC (peers q') + 1 = cnt fNC (peers q) /\
   exists d x x', In (d, x) (peers q) /\ In (d, x') (peers q') /\ pkey x = p /\ pkey x' = p /\
                  pst x = NotContacted /\ pst x' <> NotContacted.
 Proof.
   intros E. apply next_inv in E as [(_ & _ & D)|(NF & _ & lo & L & M)]; [discriminate|].
   split; [exact NF|].
   pose proof (proj2 (next_inv_emit _ _ _ _ M) p eq_refl). subst lo.
+  split; [exact (proj2 M)|].
   apply next_loop_spec in L as (_ & _ & P). cbn [loop_post] in P.
   destruct P as (AC & B & d & x & I & Sx & Kx & I'). split; [exact AC|]. split; [exact B|].
   exists d, x, (set_st x (Waiting (now + peer_timeout (cfg q)))). repeat split; auto. discriminate.
@@ -839,7 +840,7 @@ Lemma capacity_lemma q now q' p : next q now = Some (q', SWaiting (Some p)) ->
   | Finished => False
   end.
 Proof.
-  intros E. apply next_emit in E as (NF & AC & _). unfold at_capacity in AC.
+  intros E. apply next_emit in E as (NF & _ & AC & _). unfold at_capacity in AC.
   destruct (prog q); [apply N.leb_gt in AC; lia|apply N.leb_gt in AC; lia|congruence].
 Qed.
 
@@ -1086,7 +1087,7 @@ Proof.
       * destruct o as [[[p'|]| |]|]; cbn [emitted] in I; try destruct I as [<-|[]]; try destruct I.
         destruct e as [now| |]; cbn [step] in S.
         -- destruct (next q1 now) as [[q2 s]|] eqn:E; [|discriminate]. inversion S; subst.
-           apply next_emit in E as (_ & _ & _ & d & x & x' & _ & Ix' & _ & Kx' & _ & N). eauto.
+           apply next_emit in E as (_ & _ & _ & _ & d & x & x' & _ & Ix' & _ & Kx' & _ & N). eauto.
         -- destruct (on_success q1 peer closer); inversion S.
         -- destruct (on_failure q1 peer); inversion S.
     + (* nobody is handed out twice *)
@@ -1094,7 +1095,7 @@ Proof.
       apply NoDup_snoc; [exact HN|]. intros I.
       destruct e as [now| |]; cbn [step] in S.
       * destruct (next q1 now) as [[q2 s]|] eqn:E; [|discriminate]. inversion S; subst.
-        apply next_emit in E as (_ & _ & _ & d & x & x' & Ix & _ & Kx & _ & NCx & _).
+        apply next_emit in E as (_ & _ & _ & _ & d & x & x' & Ix & _ & Kx & _ & NCx & _).
         destruct (HE _ I) as (d2 & x2 & Ix2 & Kx2 & N2).
         pose proof (wf_dist _ W1 _ _ Ix) as D1. pose proof (wf_dist _ W1 _ _ Ix2) as D2.
         rewrite Kx in D1. rewrite Kx2 in D2. subst d d2.
